@@ -162,6 +162,56 @@ Print Assumptions interpolate_unfixed_same_length_raises.
 Print Assumptions interpolate_unfixed_same_length_misplaces.
 Print Assumptions freq2time_is_reference_of_filled.
 
+(* ------------------------------------------------------------------ *)
+(* Histories on one instance (public setters between the calls)        *)
+(* ------------------------------------------------------------------ *)
+Section C20_history.
+  Context {F : Type} {O : FOps F}.
+  Variable leb : F -> F -> bool.
+  Hypothesis leb_total : forall x y, leb x y = true \/ leb y x = true.
+  Hypothesis leb_trans : forall x y z, leb x y = true -> leb y z = true -> leb x z = true.
+  Variable logf : F -> F.
+  Variable spline1 : list F -> list F -> F -> F.
+  Variable pchip1 : list F -> list F -> F -> F.
+  Variable tiny : F.
+
+  (* interpolate() after a history is interpolate() of the CURRENT parameters:
+     two histories that end in the same parameters give the same spectrum *)
+  Theorem interpolate_history_independent (s1 s2 : @fstate F) ops1 ops2 fdata :
+    frun s1 ops1 = frun s2 ops2 ->
+    interpolate_state leb logf spline1 pchip1 tiny (frun s1 ops1) fdata
+    = interpolate_state leb logf spline1 pchip1 tiny (frun s2 ops2) fdata.
+  Proof. exact (fun E => f_equal (fun s => interpolate_state leb logf spline1 pchip1 tiny s fdata) E). Qed.
+
+  (* in particular: whatever was computed before, above the CURRENT fmax the
+     spectrum is 0+0j (nothing stale survives a lowered fmax) *)
+  Theorem above_is_zero_after_any_history (s0 : @fstate F) ops fdata out i d :
+    let s := frun s0 ops in
+    leb (s_fmin s) (s_fmax s) = true ->
+    interpolate_state leb logf spline1 pchip1 tiny s fdata = Some out ->
+    i < List.length (s_req s) -> ltb leb (s_fmax s) (nth i (s_req s) d) = true ->
+    nth i out czero = czero.
+  Proof. exact (above_is_zero_history leb leb_total leb_trans logf spline1 pchip1 tiny
+                  s0 ops fdata out i d). Qed.
+
+  (* the band setters: the last value wins, nothing else changes *)
+  Theorem set_fmax_last_wins (s : @fstate F) ops x :
+    s_fmax (frun s (ops ++ [SetFmax x])) = x /\
+    s_fmin (frun s (ops ++ [SetFmax x])) = s_fmin (frun s ops) /\
+    s_req (frun s (ops ++ [SetFmax x])) = s_req (frun s ops).
+  Proof. exact (set_fmax_last_wins_lemma s ops x). Qed.
+
+  (* every_x_freq and input_freq are never both set, after any history *)
+  Theorem coarse_options_exclusive fmin fmax e i (req : list F) ops :
+    exclusive (frun (finit fmin fmax e i req) ops).
+  Proof. exact (coarse_exclusive_lemma fmin fmax e i req ops). Qed.
+End C20_history.
+
+Print Assumptions interpolate_history_independent.
+Print Assumptions above_is_zero_after_any_history.
+Print Assumptions set_fmax_last_wins.
+Print Assumptions coarse_options_exclusive.
+
 Section C20_pchip.
   Context {F : Type} {O : FOps F}.
   Hypothesis Fth : field_theory F0 F1 Fadd Fmul Fsub Fopp Fdiv Finv (@eq F).
